@@ -299,13 +299,56 @@ export function computeLenders(spec, m) {
   return res;
 }
 
-export { genSpec };
+/** A fixed bridge of delicate signature shapes (each one is inside C04's grammar; most were suggested by property-breaking
+ *  changes that random generation reaches only rarely). It is run next to the generated bridges, with the same executor. */
+function catalogueSpec() {
+  const O = (name, lts, bounds = []) => ({ name, lts, bounds });
+  const op = (name, ty, l, args = [], extra = {}) => ({ name, kind: "opaque", ty, lt: l, args, ...extra });
+  const sl = (name, l, enc = "DiplomatStr") => ({ name, kind: "slice", enc, lt: l });
+  const M = (owner, name, o) => ({ owner, name, static: !o.self, lts: o.lts || [], implLts: o.implLts || [], implBounds: o.implBounds || [], self: o.self || null, params: o.params || [], ret: o.ret, bounds: o.bounds || [], special: null });
+  const box = (ty, args = []) => ({ kind: "box", ty, lt: null, args });
+  const ref = (ty, l, args = []) => ({ kind: "ref", ty, lt: l, args });
+  const opaques = [O("O0", []), O("O1", ["a"]), O("O2", ["a", "b"])];
+  const structs = [
+    { name: "S0", lts: ["a", "b"], bounds: [], fields: [{ name: "f0", kind: "opaque", ty: "O0", lt: "a", args: [] }, { name: "f1", kind: "opaque", ty: "O0", lt: "b", args: [] }] },
+    { name: "S1", lts: ["a"], bounds: [], fields: [{ name: "f0", kind: "slice", enc: "DiplomatStr", lt: "a", opt: true }, { name: "f1", kind: "opaque", ty: "O0", lt: "a", args: [] }] },
+  ];
+  const outs = [{ name: "R0", lts: ["a", "b"], bounds: [], out: true, fields: [{ name: "f0", kind: "opaque", ty: "O0", lt: "b", args: [], opt: false }, { name: "f1", kind: "opaque", ty: "O0", lt: "a", args: [], opt: false }] }];
+  const methods = [
+    // struct slots instantiated with one lifetime
+    M("O0", "m0", { lts: ["a"], params: [{ name: "p0", kind: "struct", ty: "S0", args: ["a", "a"] }], ret: box("O1", ["a"]) }),
+    // a slice that lends only through a declared / an implied bound
+    M("O0", "m1", { lts: ["a", "b"], bounds: [["b", "a"]], params: [sl("p0", "b")], ret: box("O1", ["a"]) }),
+    M("O0", "m2", { lts: ["a", "b"], params: [op("p0", "O1", "a", ["b"]), sl("p1", "b", "str")], ret: box("O1", ["a"]) }),
+    // re-converging bound graphs
+    M("O0", "m3", { lts: ["a", "b", "c", "d"], bounds: [["b", "a"], ["c", "a"], ["c", "d"], ["d", "a"]], self: { lt: "a" }, params: [op("p0", "O0", "b"), op("p1", "O0", "c"), op("p2", "O0", "d")], ret: ref("O0", "a") }),
+    M("O0", "m4", { lts: ["a", "b", "c", "d"], bounds: [["b", "a"], ["c", "d"]], params: [op("p0", "O0", "b"), op("p1", "O2", "a", ["c", "d"])], ret: box("O1", ["a"]) }),
+    // optional slice field of a struct
+    M("O0", "m5", { lts: ["a"], params: [{ name: "p0", kind: "struct", ty: "S1", args: ["a"] }], ret: box("O1", ["a"]) }),
+    // Self type with a 'static slot before a named one
+    M("O2", "m6", { lts: ["a"], implLts: ["static", "s1"], self: { lt: "a" }, params: [op("p0", "O0", "s1")], ret: ref("O0", "a") }),
+    // out-struct whose fields mention the lifetimes out of declaration order
+    M("O0", "m7", { lts: ["a", "b"], self: { lt: "a" }, params: [op("p0", "O0", "b")], ret: { kind: "struct", ty: "R0", lt: null, args: ["a", "b"] } }),
+    // two borrowed slices in one call, the survivor borrows only from the second
+    M("O0", "m8", { lts: ["a", "b"], params: [sl("p0", "a"), sl("p1", "b")], ret: { kind: "resbox", ty: "O1", lt: null, args: ["b"] } }),
+    // a method on the impl's lifetimes only; the receiver's first slot is the borrow lifetime itself
+    M("O2", "m9", { lts: [], implLts: ["s0", "s1"], self: { lt: "s0" }, params: [op("p0", "O0", "s1")], ret: ref("O0", "s0") }),
+    // struct parameter with a 'static slot before the lending one
+    M("O0", "m10", { lts: ["a"], params: [{ name: "p0", kind: "struct", ty: "S0", args: ["static", "a"] }], ret: box("O1", ["a"]) }),
+    // plain by-reference return and a getter-like accessor
+    M("O1", "m11", { lts: ["a"], implLts: ["s0"], self: { lt: "a" }, ret: ref("O0", "a") }),
+    M("O2", "m12", { lts: ["a"], implLts: ["s0", "s1"], self: { lt: "a" }, params: [{ name: "p0", kind: "optopaque", ty: "O0", lt: "a", args: [] }], ret: { kind: "optref", ty: "O0", lt: "a", args: [] } }),
+  ];
+  return { seed: 0, idx: -1, catalogue: true, opaques, structs, outs, methods };
+}
+
+export { genSpec, catalogueSpec };
 
 // ---- CLI ---------------------------------------------------------------------------------------------
 if (process.argv[1] && process.argv[1].endsWith("gen.mjs")) {
   const args = process.argv.slice(2); const kv = {};
   for (let i = 0; i < args.length; i += 2) kv[args[i].replace(/^--/, "")] = args[i + 1];
-  const spec = genSpec(Number(kv.seed ?? 20261002), Number(kv.bridge ?? 0));
+  const spec = kv.catalogue ? catalogueSpec() : genSpec(Number(kv.seed ?? 20261002), Number(kv.bridge ?? 0));
   const out = kv.out;
   fs.mkdirSync(path.join(out, "src"), { recursive: true });
   fs.writeFileSync(path.join(out, "src", "lib.rs"), rustSource(spec));
